@@ -318,7 +318,9 @@ var cbForms = []string{"none", "host", "host:port", "several"}
 var fdirForms = []string{"off", "dir", "file"}
 var cacheForms = []string{"off", "fresh", "existing", "restarts", "default-path"}
 
-var cbPool = []string{"cb.example", "alt.example:8443", "127.0.0.1", "::1", "203.0.113.9:443", "b.example:65535", "[2001:db8::5]:8443", "x-y.example"}
+var cbPool = []string{"cb.example", "alt.example:8443", "127.0.0.1", "::1", "203.0.113.9:443", "b.example:65535", "[2001:db8::5]:8443", "x-y.example",
+	// addresses with a zone, bare and bracketed, with and without a port
+	"fe80::1%eth0", "fe80::a:b%lo", "[fe80::2%eth0]:8443", "2001:db8::7"}
 
 func cbAddrs(form string, rng *rand.Rand) []string {
 	switch form {
@@ -613,6 +615,12 @@ func (j *judge) curlChecks(work string, ols []oneLiner, mainHost, bound string, 
 			continue
 		}
 		seen[ol.Text] = true
+		if strings.Contains(ol.Addr, "%") {
+			// an address with a zone: curl wants the '%' of a zone escaped in a URL and cannot be
+			// redirected for such a host; the printed text is judged (fingerprint, port), not run
+			j.r.Count("oneliners_with_zoned_address_not_run_with_curl", 1)
+			continue
+		}
 		// direct when the printed address is an address of this listener; else the same
 		// command with its connection redirected to the listener (same pin check).
 		connectTo := ""
